@@ -303,6 +303,21 @@ def classify_abort(stderr_text, returncode):
     return kind, frame
 
 
+def big_stack():
+    """Sanitizer instrumentation inflates stack frames several-fold: recursion that is bounded by the input length
+    (a 4 KiB formula nests 4096 deep) fits the default 8 MiB stack in a normal build but not in an ASan build.  Children
+    therefore get a 1 GiB stack; unbounded recursion still ends in a stack overflow report."""
+    try:
+        import resource
+        soft, hard = resource.getrlimit(resource.RLIMIT_STACK)
+        want = 1 << 30
+        if hard != resource.RLIM_INFINITY:
+            want = min(want, hard)
+        resource.setrlimit(resource.RLIMIT_STACK, (want, hard))
+    except Exception:
+        pass
+
+
 def run_child(exe, args, journal, timeout):
     """returns (returncode or None on timeout, stderr text)"""
     env = dict(os.environ)
@@ -310,7 +325,7 @@ def run_child(exe, args, journal, timeout):
     errp = journal + ".err"
     with open(errp, "wb") as ef:
         p = subprocess.Popen([exe] + args + ["--journal", journal], stdout=ef, stderr=ef, env=env,
-                             start_new_session=True)
+                             start_new_session=True, preexec_fn=big_stack)
         try:
             rc = p.wait(timeout=timeout)
         except subprocess.TimeoutExpired:
